@@ -2199,7 +2199,10 @@ class PrefetchDataset(Dataset):
 
         if with_key:
             # PrefetchDataset has no keys(), the keys are those of the input
-            iterable = input_dataset.keys()
+            try:
+                iterable = input_dataset.keys()
+            except NotImplementedError:
+                raise _ItemsNotDefined(self.__class__.__name__) from None
         else:
             iterable = range(len(self.input_dataset))
 
@@ -2612,7 +2615,12 @@ class SliceDataset(Dataset):
 
     def __iter__(self, with_key=False):
         if with_key:
-            keys = self.input_dataset.keys()
+            try:
+                keys = self.input_dataset.keys()
+            except NotImplementedError:
+                # No keys, no items. Use the signal that `items()` and
+                # `from_dataset` understand.
+                raise _ItemsNotDefined(self.__class__.__name__) from None
             for idx in self.slice:
                 yield keys[idx], self.input_dataset[idx]
         else:
@@ -3716,7 +3724,10 @@ class CacheDataset(Dataset):
 
     def __iter__(self, with_key=False):
         if with_key:
-            keys = self.keys()
+            try:
+                keys = self.keys()
+            except NotImplementedError:
+                raise _ItemsNotDefined(self.__class__.__name__) from None
             for i in range(len(self)):
                 yield keys[i], self[i]
         else:
